@@ -51,10 +51,10 @@ def run(ctx):
     ctx.preload(cfgs)
     for cfg in cfgs:
         fs = ctx.facts(cfg)
-        who(ctx, cfg, fs)
-        flag(ctx, cfg, fs)
-        argument(ctx, cfg, fs)
-        absent(ctx, cfg, fs)
+        ctx.guard(who, ctx, cfg, fs)
+        ctx.guard(flag, ctx, cfg, fs)
+        ctx.guard(argument, ctx, cfg, fs)
+        ctx.guard(absent, ctx, cfg, fs)
 
 def outer(path):
     return path.split('::{closure')[0]
